@@ -69,6 +69,9 @@ op_st = st.one_of(
                            "key": st.sampled_from(["a", "b", "c"])}),
     st.fixed_dictionaries({"op": st.just("ccopy"), "c": st.integers(0, 2),
                            "how": st.sampled_from(["copy", "copy.copy", "copy.deepcopy", "copy.deepcopy"])}),
+    # a component of a Vector updated through the attribute: v.y *= 2
+    st.fixed_dictionaries({"op": st.just("comp_iop"), "x": st.integers(0, 30), "c": st.integers(0, 2),
+                           "o": st.sampled_from(["*", "/"]), "k": st.sampled_from([2.0, 4.0, 0.5])}),
 )
 case_st = st.fixed_dictionaries({"n": st.sampled_from([3, 4, 5, 6, 3, 4, 5, 6, 1500]),
                                  "pool": st.lists(obj_st, min_size=2, max_size=4),
@@ -486,6 +489,60 @@ def history(case, r):
                 if now != ysnap and not overlap:
                     r.bad(["operand-modified", oper], f"{where}: y changed")
                     break
+        elif o == "comp_iop":
+            cand = [ee for ee in w.pool if ee.kind == "V"]
+            if not cand:
+                continue
+            e = cand[op["x"] % len(cand)]
+            c = op["c"] % len(e.comps)
+            cname = "xyz"[c]
+            m = e.comps[c]
+            k = op["k"]
+            if m.dtype.startswith("int"):
+                if op["o"] == "/" or k != int(k) or k < 1:
+                    continue
+                k = int(k)
+            r.label("component_attribute_update")
+            where += f" v.{cname} {op['o']}= {k}"
+            target = e.objs[0]
+            held = getattr(target, cname)
+            buf_before = held._array
+            try:
+                if op["o"] == "*":
+                    if c == 0:
+                        target.x *= k
+                    elif c == 1:
+                        target.y *= k
+                    else:
+                        target.z *= k
+                else:
+                    if c == 0:
+                        target.x /= k
+                    elif c == 1:
+                        target.y /= k
+                    else:
+                        target.z /= k
+            except Exception as ex:
+                r.bad(["inplace-raises", op["o"], type(ex).__name__, "component-attribute"], f"{where}: {ex!r}")
+                break
+            now = getattr(target, cname)
+            if now is not held:
+                r.bad(["inplace-new-object", op["o"], "component-attribute"],
+                      f"{where}: the component Array is not the same object after the update (other references to it are cut off)")
+                break
+            if buf_before.size and not np.shares_memory(buf_before, now._array):
+                r.bad(["inplace-rebinds-buffer", op["o"], "component-attribute"], f"{where}: the component no longer uses its buffer")
+                break
+            buf = w.bufs[m.buf]
+            with np.errstate(all="ignore"):
+                newraw = w.raw(m) * k if op["o"] == "*" else w.raw(m) / k
+                if m.dtype == "float32":
+                    newraw = newraw.astype(np.float32).astype(np.float64)
+            if m.sel is None:
+                buf[...] = newraw
+            else:
+                buf[m.sel] = newraw
+            w.buf_abs[m.buf] = w.buf_abs.get(m.buf, 0.0) * (k if op["o"] == "*" else 1.0 / k)
         elif o == "copy":
             e = w.pool[op["x"] % len(w.pool)]
             src = e.objs[0]
